@@ -140,15 +140,22 @@ def compute(prog, rep):
     pcs_g = PathConditions(fn, bg)
     for st in cs:
         base_pc = set(pcs_g.of(st))
-        # flags set from the same tests count as the tests themselves
-        st_one = one in base_pc or any(_flag_of(l, one, bg, fn) is True for l in base_pc)
-        st_not_one = ("not", one) in base_pc or any(_flag_of(l, one, bg, fn) is False for l in base_pc)
         for lits, t in guarded_alts(bg.term(st.value, st)):
-            if (st_one and ("not", one) in lits) or (st_not_one and one in lits):
-                continue  # this alternative contradicts the statement's own path condition
             pc = base_pc | set(lits)
-            is_one = st_one or one in pc
-            not_one = st_not_one or ("not", one) in pc
+            # polarity of "exactly one component" on this alternative; flags set from the same test count as the test itself
+            pol = set()
+            for l in pc:
+                if l == one:
+                    pol.add(True)
+                elif l == ("not", one):
+                    pol.add(False)
+                else:
+                    f = _flag_of(l, one, bg, fn)
+                    if f is not None:
+                        pol.add(f)
+            if pol == {True, False}:
+                continue  # the guards of this alternative contradict each other
+            is_one, not_one = True in pol, False in pol
             if not_one:
                 kinds.setdefault("multi", []).append((st, t == LST, t))
             elif two in pc:
